@@ -4,6 +4,13 @@
 #ifndef ENV_PLAY_H
 #define ENV_PLAY_H
 #include "verif_types.h"
+#ifdef VERIF_CBMC
+#include "opnmidi_verif_contracts.h"   /* loop contracts for the VERIF_LOOP markers that the extracted text carries */
+#else
+#define VERIF_LOOP(id)
+#define VERIF_GHOST(decl)
+#define VERIF_ENTRY(id)
+#endif
 
 OPNMIDIplay g_play;            /* stands for *this of OPNMIDIplay (R10 rewrites bare members to g_play.member) */
 
